@@ -316,6 +316,10 @@ func cmdCheck(args []string) int {
 		unlockedBudget = 40
 	}
 	replayDir := filepath.Join(*verif, "replays")
+	if *noEvidence {
+		// selftest / seed runs against scratch copies: keep their replay files out of the committed directory
+		replayDir = filepath.Join(*verif, ".work", "replays")
+	}
 	for _, b := range order {
 		g := groups[b]
 		for _, o := range g.insts {
